@@ -1,0 +1,30 @@
+//go:build verif
+
+// Verification contracts for package protocol, property C11 (every advertised API version is served with a
+// decodable response): the response header rules. Comment-only; read by /verif/govc.
+
+package protocol
+
+// The header is the correlation id, big endian, followed by exactly one zero byte (empty tagged-field section)
+// when and only when the flexible header is requested.
+//@ func encodeResponseHeader
+//@   ensures [C11.header_length] len(result) == ite(flexible, 5, 4)
+//@   ensures [C11.header_starts_with_correlation_id] be32(result, 0) == uint32(correlationID)
+//@   ensures [C11.flexible_header_has_empty_tag_section] flexible ==> result[4] == 0
+
+// EncodeResponse: the version is set on the response before anything is asked of it; the header handed to the
+// codec's AppendTo is the correlation id plus the tagged-field byte exactly when the response is flexible at that
+// version and the key is not ApiVersions (18); the result is what AppendTo returns for that header.
+//@ func EncodeResponse
+//@   ghost versionSet bool = false
+//@   ghost flex bool = false
+//@   ghost key int16 = 0
+//@   ghost out []byte = nil
+//@   at SetVersion#1 before assert [C11.version_set_to_request_version] arg0 == apiVersion
+//@   at SetVersion#1 after set versionSet = true
+//@   at IsFlexible#1 before assert [C11.flexibility_asked_after_version_set] versionSet
+//@   at IsFlexible#1 after set flex = ret0
+//@   at Key#1 after set key = ret0
+//@   at AppendTo#1 before assert [C11.header_shape] versionSet && len(arg0) == ite(flex && key != 18, 5, 4) && be32(arg0, 0) == uint32(correlationID) && (len(arg0) == 5 ==> arg0[4] == 0)
+//@   at AppendTo#1 after set out = ret0
+//@   ensures [C11.reply_is_header_plus_codec_body] sameSlice(result, out)
